@@ -95,7 +95,7 @@ EXTERNAL_MEMBERS = {
 
 
 class Project:
-    def __init__(self, repo: str = '/repo', overlay: Optional[Dict[str, str]] = None):
+    def __init__(self, repo: str = '/repo', overlay: Optional[Dict[str, str]] = None, normalise: bool = True):
         self.repo = pathlib.Path(repo)
         self.root = self.repo / PKG
         self.overlay = dict(overlay or {})
@@ -117,6 +117,11 @@ class Project:
             except SyntaxError as e:
                 raise AnalysisError(f'syntax error in {rel}: {e}')
             self.modules[rel] = ModuleInfo(rel, src, tree)
+        self.normalisation = {}
+        if normalise and not os.environ.get('FSA_NO_NORMALISE'):
+            from .normalise import normalise as _norm
+            nz = _norm({rel: m.tree for rel, m in self.modules.items()})
+            self.normalisation = {'applied': dict(nz.stats), 'log': nz.log[:60]}
         for m in self.modules.values():
             self._index_module(m)
         self._mro_cache: Dict[ClassKey, List[ClassInfo]] = {}
